@@ -1,5 +1,5 @@
 """C02 Each operation receives exactly its own kernel results, once and in order."""
-from .kernel import (specialise_value, ExprBuilder, Loc, access_path, bool_call_switches, const_switches, specialise,
+from .kernel import (specialise_value, resolve_upvars, is_local, ExprBuilder, Loc, access_path, bool_call_switches, const_switches, specialise,
                      subexprs, variant_edges)
 from . import families as fam
 from . import life
@@ -35,6 +35,7 @@ def r1_user_data_writers(r, facts):
         r.inst('%s: user_data = %s' % (g.path, e), g.where(loc))
         seen.add(g.path)
         if g.path == life.SUBMIT_CLOSURE:
+            e = resolve_upvars(facts, g, e)
             r.require(e[0] == 'call' and e[1] == life.USER_DATA, 'writer:submit-closure', 'operation submissions are not tagged with State::user_data(state): %s' % (e,), g.where(loc))
         elif g.path in BOOKKEEPERS:
             want = facts.const(BOOKKEEPERS[g.path])
@@ -52,13 +53,16 @@ def r1_user_data_writers(r, facts):
     setf = [(loc, t) for loc, t in c.calls() if (t.get('callee') or '').endswith('OpTarget::set_flags')]
     r.require(len(fills) == 1 and len(setf) == 1, 'submit-closure/shape', 'fill_submission / set_flags calls not found in the submit closure (fill=%d set_flags=%d)' % (len(fills), len(setf)), c.where())
     for w in wloc:
-        for loc, t in fills + setf:
+        for loc, t in fills:
             r.require(c.dominates(loc, w), 'submit-closure/last-writer', 'user_data is written before %s ran (it could be overwritten)' % (t.get('callee'),), c.where(w))
+        # calls that receive the submission after the write must be crate code (every crate function is covered by
+        # the writer census above, so none of them can overwrite user_data): the OpTarget::set_flags impls qualify
         after = c.reachable_locs([Loc(w[0], w[1] + 1)])
         for loc, t in c.calls():
             if loc in after and any('l' in a and 'Submission' in a.get('ty', '') for a in t['args']):
-                r.bad('submit-closure/last-writer', 'the submission is passed to %s after user_data was set' % t.get('callee'), c.where(loc))
-    # floor: 4 writers
+                callee = t.get('callee') or ''
+                crate_local = callee.endswith('OpTarget::set_flags') or facts.fn_opt(t.get('resolved') or callee) is not None
+                r.require(crate_local, 'submit-closure/last-writer', 'the submission is passed to %s (not covered by the writer census) after user_data was set' % callee, c.where(loc))
     r.floor(4, 'user_data writers')
 
 
@@ -334,6 +338,24 @@ def r6b_value_flow(r, facts):
                 oks += any(x[0] == 'call' and x[1].endswith('try_from') for x in subexprs(e)) or fam.last_field(e[3][0]) == 'result' or 'result' in str(e)
             if s['rv'].get('variant') == 'Err':
                 errs += any(x[0] == 'call' and x[1] == 'std::io::Error::from_raw_os_error' and any(y[0] == 'un' and y[1] == 'Neg' for y in subexprs(x)) for x in subexprs(e))
+    if not (oks >= 1 and errs >= 1):
+        # the combinator spelling: u32::try_from(self.result).map_err(|_| Error::from_raw_os_error(-self.result))
+        rets = [ec.call(t) for l2, t in c.calls() if is_local(t['dest'], 0)]
+        for e in rets:
+            if e[0] == 'call' and e[1] == 'std::result::Result::<T, E>::map_err' and any(x[0] == 'call' and x[1].endswith('try_from') and fam.last_field(x[2][0]) == 'result' for x in subexprs(e[2][0])):
+                oks = 1
+                for l2, s2 in c.assigns():
+                    rv = s2['rv']
+                    if rv['k'] == 'agg' and rv.get('ak') == 'closure':
+                        g = facts.fn_opt(rv['closure'])
+                        if g is None:
+                            continue
+                        ge = ExprBuilder(g, multi='phi')
+                        for l3, t3 in g.calls():
+                            if (t3.get('callee') or '') == 'std::io::Error::from_raw_os_error':
+                                a = resolve_upvars(facts, g, ge.operand(t3['args'][0]))
+                                if a[0] == 'un' and a[1] == 'Neg' and fam.last_field(a[2]) == 'result':
+                                    errs = 1
     r.inst('check_result: Ok arms=%d Err(from_raw_os_error(-result)) arms=%d' % (oks, errs), c.where())
     r.require(oks >= 1 and errs >= 1, 'check_result', 'check_result is not `u32::try_from(result)` / `Err(from_raw_os_error(-result))`', c.where())
     # the handler stores this completion's res/flags (not swapped, not from elsewhere)
